@@ -2,7 +2,7 @@ from props import *  # noqa: F401,F403
 
 rc_bin("c03_sched", ["harness/c03_export_bounds.cc"], lib=False, shadow=BATCH_SHADOW, shadow_srcs=BATCH_SHADOW_SRCS, repo_srcs=BATCH_PLAIN)
 PROPS["C03"] = dict(
-    level_text="TODO",
+    level_text="Same schedule-controlled engine: the exporter keeps an in-flight counter (never above 1 per exporter instance, with a yield/virtual sleep inside Export to invite overlap) and every delivered batch must hold 1..max_export_batch_size records, including histories with a ForceFlush before later production and the shutdown drain path.",
     technique="generated schedules over a deterministic scheduler shim (rapidcheck choice streams) + history-invariant oracle",
     rule="A case = (processor configuration, thread programs, exporter behaviour, schedule).",
     assumptions=SCHED_ASSUMPTIONS + [SC_NOTE],
